@@ -379,6 +379,7 @@ static int pbt(uint64_t seed, uint64_t ncases, unsigned W, unsigned max_scale, c
   }
   std::sort(a.hashes.begin(), a.hashes.end());
   uint64_t distinct = std::unique(a.hashes.begin(), a.hashes.end()) - a.hashes.begin();
+  write_file(rundir + "/hashes.bin", a.hashes.data(), distinct * 8);   // for merging several runs (e.g. inline / out-of-line flavours)
   std::vector<std::string> missing;
   for (auto r : g_prop.required_labels) if (!a.labels.count(r)) missing.push_back(r);
   fprintf(out, "{\"status\":\"%s\",\"evaluations\":%llu,\"nontrivial\":%llu,\"distinct_nontrivial\":%llu,\"wall_s\":%.1f,\n",
